@@ -26,7 +26,7 @@ Init == l = 1 /\ TLCSet(1, {})
 Next == /\ l <= Len(Lines)
         /\ LET bad == Clauses(Lines[l]) IN
            IF bad = {} THEN TRUE
-           ELSE TLCSet(1, TLCGet(1) \cup {l}) /\ PrintT(<<"REJECT", l, bad>>)
+           ELSE TLCSet(1, TLCGet(1) \cup {l}) /\ PrintT(ToJson([rej |-> l, info |-> <<bad>>]))
         /\ l' = l + 1
-Done == TLCGet(1) = {} /\ TLCGet("stats").diameter - 1 = Len(Lines)
+Done == PrintT(ToJson([rejected_total |-> Cardinality(TLCGet(1))])) /\ TLCGet(1) = {} /\ TLCGet("stats").diameter - 1 = Len(Lines)
 =============================================================================
